@@ -12,7 +12,7 @@ from __future__ import annotations
 import ast
 import copy
 import hashlib
-from typing import Dict, List, Tuple
+from typing import Dict, List, Optional, Tuple
 
 
 def fingerprint(fnode) -> str:
@@ -524,3 +524,88 @@ def canonical_imports(trees: Dict[str, ast.Module], pkg: str = 'pynetdicom2') ->
                 if isinstance(n, ast.Name) and n.id in rename:
                     n.id = rename[n.id]
     return n_changed
+
+
+# --------------------------------------------------------------------------- ``match`` statements as if / elif chains
+
+def desugar_match(trees: Dict[str, ast.Module]) -> int:
+    """``match S: case 1 | 3: A; case 0 | 2 if G: B; case None: C; case x: D; case _: E`` becomes the if / elif chain it means, for
+    the patterns whose meaning is a comparison: literal and dotted-name value patterns (``==``), ``None`` / ``True`` / ``False``
+    (``is``), or-patterns of these (membership in the tuple of alternatives, as the package itself writes such tests), a bare
+    capture / wildcard (always matches; a capture binds the subject first), all with optional guards.  Class, sequence and
+    mapping patterns are left alone (the flow engine reports them as not modelled).  The subject is evaluated once: anything but
+    a name / attribute chain is bound to a fresh local first.  -> number of statements rewritten"""
+    count = [0]
+    fresh = [0]
+
+    def simple(e) -> bool:
+        while isinstance(e, ast.Attribute):
+            e = e.value
+        return isinstance(e, ast.Name)
+
+    def test_for(pat, subj) -> Optional[Tuple[Optional[ast.expr], List[ast.stmt]]]:
+        """-> (test or None for "always", statements binding captures) or None when the pattern is not a comparison"""
+        if isinstance(pat, ast.MatchValue):
+            return ast.Compare(left=subj, ops=[ast.Eq()], comparators=[pat.value]), []
+        if isinstance(pat, ast.MatchSingleton):
+            return ast.Compare(left=subj, ops=[ast.Is()], comparators=[ast.Constant(value=pat.value)]), []
+        if isinstance(pat, ast.MatchOr):
+            vals = []
+            for p_ in pat.patterns:
+                if isinstance(p_, ast.MatchValue):
+                    vals.append(p_.value)
+                else:
+                    return None
+            return ast.Compare(left=subj, ops=[ast.In()], comparators=[ast.Tuple(elts=vals, ctx=ast.Load())]), []
+        if isinstance(pat, ast.MatchAs):
+            if pat.pattern is None:
+                binds = [] if pat.name is None else [ast.Assign(targets=[ast.Name(id=pat.name, ctx=ast.Store())], value=subj)]
+                return None, binds
+            inner = test_for(pat.pattern, subj)
+            if inner is None:
+                return None
+            binds = inner[1] + ([ast.Assign(targets=[ast.Name(id=pat.name, ctx=ast.Store())], value=subj)] if pat.name else [])
+            return inner[0], binds
+        return None
+
+    def rewrite(st: ast.Match) -> Optional[List[ast.stmt]]:
+        pre: List[ast.stmt] = []
+        subj = st.subject
+        if not simple(subj):
+            fresh[0] += 1
+            nm = '__m%d_subject' % fresh[0]
+            pre.append(ast.Assign(targets=[ast.Name(id=nm, ctx=ast.Store())], value=subj))
+            subj = ast.Name(id=nm, ctx=ast.Load())
+        arms = []
+        for c in st.cases:
+            t = test_for(c.pattern, subj)
+            if t is None:
+                return None
+            test, binds = t
+            if binds and c.guard is not None:
+                return None          # the guard may read the capture: needs the binding before the test
+            if c.guard is not None:
+                test = c.guard if test is None else ast.BoolOp(op=ast.And(), values=[test, c.guard])
+            arms.append((test, binds + c.body))
+        chain: List[ast.stmt] = []
+        for test, body in reversed(arms):
+            if test is None:
+                chain = body         # irrefutable: later cases are unreachable (Python rejects them anyway)
+            else:
+                chain = [ast.If(test=test, body=body, orelse=chain)]
+        return pre + (chain or [ast.Pass()])
+
+    class T(ast.NodeTransformer):
+        def visit_Match(self, node):
+            self.generic_visit(node)
+            new = rewrite(node)
+            if new is None:
+                return node
+            count[0] += 1
+            for x in new:
+                ast.copy_location(x, node)
+                ast.fix_missing_locations(x)
+            return new
+    for t in trees.values():
+        T().visit(t)
+    return count[0]
